@@ -9,7 +9,9 @@ RULE = ("oracle: sentinel + fixed neighbourhood cases (all orders of overlapping
         "+ random cases: path expressions of the path-safe grammar (field/index/slice/iterate, .., recurse, select, if, //, "
         "first, limit, getpath, empty, error, ?, try, pipe, comma up to 3 alternatives, bindings), guided by the input, x "
         "random JSON inputs (depth<=3) under 9 sharing prefixes x 31 update bodies / 12 assignment values / 6 arithmetic "
-        "operators; kinds: path(p) vs p+getpath, |=, =, op=, del, delpaths, map_values, pick, paths, to_entries, "
+        "operators; systematic block: all ordered pairs and 1/8 (quick) or all (thorough) of the ordered triples of 20 "
+        "alternatives (slices reaching the end .[k:] .[k:len] .[-k:], negative indices, negative bounds, out-of-range "
+        "indices) on [0,1,2,3] x del / |= empty / |= partial-empty; kinds: path(p) vs p+getpath, |=, =, op=, del, delpaths, map_values, pick, paths, to_entries, "
         "with_entries, tostream vs their defining reductions in jq on the same implementation; invalid-path forms. "
         "nat: getpath/setpath/delpaths natives on random values and paths vs the extracted value model. "
         "heap: random Go heaps with aliasing x 1-4 update/delete/sweep/delpaths operations with new values aliasing the "
@@ -64,6 +66,7 @@ def run(tier, seed):
     if exe_m is None:
         c.broken_correspondence("model-extraction", None, V.tail(mlog, 40))
         return c.finish(RULE, extra_cov=dict(streams=stats))
+    any_mismatch = False
     for stream, n in (("nat", 20000 if quick else 500000), ("heap", 30000 if quick else 600000)):
         rc, out, cases, st = V.run_harness("c02", stream, seed, n, tier, name="c02" + stream)
         if rc != 0:
@@ -72,6 +75,23 @@ def run(tier, seed):
         for v in st.get("impl_violations") or []:
             c.failing_input("impl-oracle:" + stream, v, v)
         mism = V.compare_model(c, exe_m, cases, stream)
+        any_mismatch = any_mismatch or bool(mism)
+        found = 0
+        if mism and stream == "nat":
+            # search step 1: a native that disagrees with the value model is replayed at jq level against the
+            # defining reduction (delpaths(ps) vs _dref(ps): every path resolved against the original value;
+            # setpath then getpath) on the implementation: a disagreement there is a failing input
+            idx = {}
+            for i, l in enumerate(open(cases)):
+                idx.setdefault(l.rstrip("\n"), i)
+            want = sorted(set(idx[l] for l, _ in mism if l in idx))[:200]
+            rc2, out2, rcases, _ = V.run_harness("c02", "nat", seed, n, tier, extra=["replay:" + ",".join(map(str, want))],
+                                                 name="c02natreplay")
+            js = [l.strip() for l in open(rcases)] if rc2 == 0 else []
+            if js:
+                before = len(c.violations) + len(c.known_hits)
+                oracle(c, seed, 0, tier, extra=js, name="natoracle", stream="one")
+                found = len(c.violations) + len(c.known_hits) - before
         for line, verdict in mism[:5]:
             c.broken_correspondence(stream, line, "model verdict: " + verdict)
         stats[stream] = dict(cases=st.get("lines"), mismatches=len(mism))
@@ -81,6 +101,11 @@ def run(tier, seed):
             sm = V.compare_model(c, exe_m, cases, stream, spec=True)
             stats[stream]["value_semantics_deviations"] = len(sm)
             stats[stream]["deviation_samples"] = [l for l, _ in sm[:3]]
+    if any_mismatch:
+        # search step 2: the whole systematic block (all ordered triples) and more random cases through the oracle
+        st = oracle(c, seed + 1, 4000 if quick else 50000, tier, extra=["search"], name="search")
+        if st:
+            stats["search"] = dict(cases=st.get("cases"), failing=st.get("oracle_failing_cases"))
     return c.finish(RULE, extra_cov=dict(streams=stats))
 
 
